@@ -183,8 +183,10 @@ static void ofail(const std::string &key, const std::string &replay) {
     stat("oracle-fail:" + key);
     if (n[key]++ < 12) oracleFail(key, replay);
 }
-static int vLines = 0;
-static void vline(const std::string &s) { if (vLines < 600) { vLines++; printf("V %s\n", s.c_str()); } }
+static void vline(const std::string &s) {  // at most 400 per kind (mi / fp / hmac / crc)
+    static std::map<std::string, int> n;
+    if (n[s.substr(0, 3)]++ < 400) printf("V %s\n", s.c_str());
+}
 
 static bool decodeLine(const QByteArray &buf, const QByteArray &key, bool announce, QXmppStunMessage *outMsg = nullptr, bool emitLine = true) {
     if (announce) { printf("I %s %s\n", hx(buf).c_str(), hxArg(key).c_str()); fflush(stdout); }
@@ -299,6 +301,7 @@ static void runMessage(Ctx &c, const GMsg &g, const QByteArray &key, bool fp, in
     corr("reset", "ok");
     QXmppStunMessage m; apply(g, m);
     const std::string spec = showMsg(m, false);
+    printf("I encode/decode/bit flips of message %s key=%s fp=%d\n", spec.c_str(), hxArg(key).c_str(), fp ? 1 : 0); fflush(stdout);
     const QByteArray enc = m.encode(key, fp);
     corr("enc " + spec + " " + hxArg(key) + " " + (fp ? "1" : "0"), hx(enc));
     sample("enc " + spec.substr(0, 300) + " key[" + std::to_string(key.size()) + "] fp=" + (fp ? "1" : "0") + " -> " + hx(enc).substr(0, 160));
